@@ -103,7 +103,7 @@ class HistoryGen:
             if n in self.known:
                 self.known[n].add(c)
             ctype = rng.randint(0, 39) if self.wide else rng.choice([0, 6, 38, -5, 10**30])
-            return f"{n};{c};0;0;{ctype};{self.payload()}"
+            return f"{n};{c};0;{rng.choice([0, 0, 0, 1])};{ctype};{self.payload()}"
         if roll < 0.46:
             n = self.node(known=rng.random() < 0.9)
             c = self.child(n, known=rng.random() < 0.85)
@@ -113,14 +113,14 @@ class HistoryGen:
             n = self.node(known=rng.random() < 0.9)
             c = self.child(n, known=rng.random() < 0.85)
             vtype = rng.randint(0, 56) if self.wide else rng.choice(VTYPES)
-            return f"{n};{c};2;0;{vtype};{self.payload()}"
+            return f"{n};{c};2;{rng.choice([0, 0, 1])};{vtype};{self.payload()}"
         if roll < 0.92:
             imax = spec.INTERNAL_MAX[self.proto]
             t = rng.choice([0, 0, 1, 3, 6, 9, 11, 12, 14, 21, 22, 22, 32, 32, 19, 20, rng.randint(0, imax),
                             rng.randint(-1, 40)])
             n = self.node(known=rng.random() < 0.85)
             if t == 3:
-                return f"{rng.choice([255, 255, n])};{rng.choice([255, 255, 3, 0])};3;0;3;{self.payload()}"
+                return f"{rng.choice([255, 255, n])};{rng.choice([255, 255, 3, 0])};3;{rng.choice([0, 0, 0, 1])};3;{self.payload()}"
             if t == 0:
                 p = rng.choice(["0", "55", "100", "99.5", "7", self.payload()])
             elif t == 22:
@@ -131,7 +131,7 @@ class HistoryGen:
                 p = self.payload()
             return f"{n};255;3;{rng.randint(0, 1)};{t};{p}"
         n = self.node(known=rng.random() < 0.8)
-        return f"{n};255;4;0;{rng.choice([0, 1, 2, 3, 4, 5, 5, 6, -1, 99])};{self.payload()}"
+        return f"{n};255;4;{rng.choice([0, 0, 0, 1])};{rng.choice([0, 1, 2, 3, 4, 5, 5, 6, -1, 99])};{self.payload()}"
 
     def tx_op(self) -> list:
         rng = self.rng
@@ -217,23 +217,25 @@ def rich_history(rng: random.Random, version: str | None, length: int) -> list[l
             steps.append(["rx", gen.rx_line() + "\n"])
         elif roll < 0.45:
             n, c, t = rng.choice([1, 2]), rng.choice([0, 1]), rng.choice([2, 3])
-            steps.append(["rx", f"{n};{c};{rng.choice([1, 1, 2])};0;{t};{rng.choice(['0', '1', 'on'])}\n"])
+            steps.append(["rx", f"{n};{c};{rng.choice([1, 1, 2])};{rng.choice([0, 0, 1])};{t};{rng.choice(['0', '1', 'on'])}\n"])
         elif roll < 0.60:
             n, c, t = rng.choice([1, 2, 7]), rng.choice([0, 1]), rng.choice([2, 3])
             steps.append(["tx", [n, c, 1, rng.randint(0, 1), t, rng.choice(["0", "1", "on", gen.unique()])], rng.random() < 0.85])
         elif roll < 0.66:
             n = rng.choice([1, 2, 7])
-            steps.append(["tx", [n, 255, 3, 0, rng.choice([13, 18, 19, 6, 1, 24]), ""], rng.random() < 0.7])
+            steps.append(["tx", [n, 255, 3, rng.choice([0, 0, 1]), rng.choice([13, 18, 19, 6, 1, 24]), ""], rng.random() < 0.7])
         elif roll < 0.70:
-            steps.append(["tx", [rng.choice([1, 2]), rng.choice([0, 1]), 2, 0, 2, ""], True])
+            steps.append(["tx", [rng.choice([1, 2]), rng.choice([0, 1]), 2, rng.choice([0, 1]), rng.choice([2, 3]), ""], True])
         elif roll < 0.78:
             steps.append(["flag", rng.choice([1, 2]), "reboot", rng.random() < 0.7])
         elif roll < 0.86 and spec.is2x(proto):
-            steps.append(["rx", f"{rng.choice([1, 2])};255;3;0;{wake};{rng.randint(0, 9)}\n"])
+            steps.append(["rx", f"{rng.choice([1, 2])};255;3;{rng.choice([0, 0, 0, 1])};{wake};{rng.randint(0, 9)}\n"])
         elif roll < 0.90:
             steps.append(["config", "metric", rng.random() < 0.5])
         elif roll < 0.93:
-            steps.append(["rx", f"{rng.choice([1, 2, 255])};255;3;0;{rng.choice([6, 6, 1, 3])};\n"])
+            steps.append(["rx", f"{rng.choice([1, 2, 255])};255;3;{rng.choice([0, 0, 1])};{rng.choice([6, 6, 1, 3])};\n"])
+        elif roll < 0.94:
+            steps.append(["forget", rng.choice([1, 2, 7])])  # the application removes a node from the registry
         elif roll < 0.95:
             steps.append(["reenter"])
         elif roll < 0.97:
